@@ -1053,20 +1053,37 @@ class Evaluator:
             o = self.deref_val(args[0]) if isinstance(args[0], Ref) else args[0]
             if isinstance(o, Enum) and o.name in ("Ok", "Err"):
                 return int((o.name == "Ok") == short.endswith("is_ok"))
-        # core::num::Wrapping<uN> arithmetic (a one-field struct)
-        if "core::num::wrapping::Wrapping<" in str(name) and sh0.startswith("core::ops::") and len(args) == 2:
-            wty = str(name).split("core::num::wrapping::Wrapping<")[1].split(">")[0]
-            bits = {"u8": 8, "u16": 16, "u32": 32, "u64": 64, "usize": 64}.get(wty)
-            a, b = (self.deref_val(q) if isinstance(q, (Ref, ElemRef)) else q for q in args)
+        # core::num::Wrapping<T> arithmetic and comparisons (a one-field struct)
+        if "core::num::wrapping::Wrapping<" in str(name) + " ".join(str(q) for q in (c.get("args") or [])) and len(args) in (1, 2) \
+                and (sh0.startswith("core::ops::") or sh0.startswith("core::cmp::PartialOrd::") or sh0.startswith("core::cmp::PartialEq::")):
+            src_ = str(name) + " ".join(str(q) for q in (c.get("args") or []))
+            wty = src_.split("core::num::wrapping::Wrapping<")[1].split(">")[0]
+            bits = {"u8": 8, "u16": 16, "u32": 32, "u64": 64, "usize": 64, "i8": 8, "i16": 16, "i32": 32, "i64": 64, "isize": 64}.get(wty)
+            vals = [self.deref_val(q) if isinstance(q, (Ref, ElemRef)) else q for q in args]
             opn = sh0.split("::")[-1]
-            if bits and isinstance(a, Struct) and len(a.fields) == 1 and isinstance(a.fields[0], int):
-                x = a.fields[0]
-                y = b.fields[0] if isinstance(b, Struct) and len(b.fields) == 1 else b
+            if bits and isinstance(vals[0], Struct) and len(vals[0].fields) == 1 and isinstance(vals[0].fields[0], int):
+                x = vals[0].fields[0]
+                y = None
+                if len(vals) == 2:
+                    y = vals[1].fields[0] if isinstance(vals[1], Struct) and len(vals[1].fields) == 1 else vals[1]
+                sg = wty.startswith("i")
+
+                def wrap_(r):
+                    r &= (1 << bits) - 1
+                    return r - (1 << bits) if sg and r >= 1 << (bits - 1) else r
+                if y is None and opn in ("neg", "not"):
+                    return Struct([wrap_(-x if opn == "neg" else ~x)])
                 if isinstance(y, int) and not isinstance(y, bool):
+                    cmp_ = {"lt": x < y, "le": x <= y, "gt": x > y, "ge": x >= y, "eq": x == y, "ne": x != y}
+                    if opn in cmp_:
+                        return int(cmp_[opn])
+                    if opn in ("div", "rem") and y == 0:
+                        raise Unsupported("division by zero")
                     fn_ = {"mul": lambda: x * y, "add": lambda: x + y, "sub": lambda: x - y, "shr": lambda: x >> (y % bits), "shl": lambda: x << (y % bits),
-                           "bitand": lambda: x & y, "bitor": lambda: x | y, "bitxor": lambda: x ^ y}.get(opn)
+                           "bitand": lambda: x & y, "bitor": lambda: x | y, "bitxor": lambda: x ^ y, "div": lambda: _tdiv(x, y),
+                           "rem": lambda: x - y * _tdiv(x, y)}.get(opn)
                     if fn_:
-                        return Struct([fn_() & ((1 << bits) - 1)])
+                        return Struct([wrap_(fn_())])
         # HashSet / HashMap as the list of their items / (key, value) pairs
         if ("HashSet" in sh0 or "HashMap" in sh0) and sh0.startswith("std::collections::"):
             last = short.split("::")[-1]
